@@ -12,11 +12,12 @@ import re
 
 from common import Infra, harness_json, log, marker_json, run_tlc, seed
 
-INVARIANTS = ["TypeOK", "UniqueAccepted", "InRange", "Bounded", "NoOrphan", "Conserved", "ClosedCompletes", "RoutedById", "OnceOnly", "Delivered", "RecycledWhenSeen"]
+INVARIANTS = ["TypeOK", "UniqueAccepted", "InRange", "Bounded", "NoOrphan", "Conserved", "ClosedCompletes", "RoutedById", "OnceOnly", "Delivered", "RecycledWhenSeen", "NoPanic"]
 
 # the tree as it stands: addInFlight re-checks duplicate / capacity under the write lock; a final frame whose id cannot
 # be released because the handler was closed meanwhile completes its request with an error
-AS_BUILT = dict(CheckUnderLock=True, CloseOnReleaseFail=True)
+# a frame is handed to its request under the request's read lock (close takes the write lock)
+AS_BUILT = dict(CheckUnderLock=True, CloseOnReleaseFail=True, SendUnderLock=True)
 
 M = dict(op="send", id=0)
 
@@ -35,6 +36,11 @@ C = dict(op="close")
 def R(k):
     """poll the request the caller's k-th operation (a send) returned"""
     return dict(op="recv", id=k)
+
+
+def X(owner, k):
+    """a timer goroutine of the request that the k-th operation of thread `owner` returned goes on and fails it with a timeout"""
+    return dict(op="expire", owner=owner, id=k)
 
 
 def configs(tier):
@@ -58,6 +64,10 @@ def configs(tier):
         dict(name="close-deliver", N=2, MaxPending=1, setup="s", progs=dict(s=[M, M], r=[D(1), D(2, False)], c=[C], a=[M])),
         # C16: close against two senders and a second close
         dict(name="close-send", N=2, MaxPending=1, setup="none", progs=dict(a=[M], b=[E(3)], c=[C], d=[C])),
+        # C16: a timeout against the receive loop delivering a page and the final frame; the caller polls; the page re-arms
+        dict(name="timer-deliver", N=1, MaxPending=2, setup="none", progs=dict(a=[M, R(1), R(1)], r=[D(1, False), D(1)], x=[X("a", 1), X("a", 1)])),
+        # C16 / C09: a timeout against close and a further sender (a timed-out request keeps its id until it is answered)
+        dict(name="timer-close", N=2, MaxPending=1, setup="s", progs=dict(s=[M, M], x=[X("s", 1)], c=[C], r=[D(1), D(2)], a=[M])),
     ]
     if tier == "thorough":
         out += [
@@ -65,6 +75,8 @@ def configs(tier):
             dict(name="dup-explicit-3", N=3, MaxPending=1, setup="none", progs=dict(a=[E(4)], b=[E(4)], c=[E(4)], r=[D(4)])),
             dict(name="close-all", N=2, MaxPending=2, setup="s", progs=dict(s=[M, E(3)], r=[D(1, False), D(3), D(1)], c=[C], a=[M, E(3)], b=[M])),
             dict(name="recycle-long", N=2, MaxPending=1, setup="none", progs=dict(a=[M, M], b=[M, M], r=[D(1), D(2), D(1)])),
+            dict(name="timer-overflow", N=1, MaxPending=1, setup="s", progs=dict(s=[M], r=[D(1, False), D(1, False), D(1)], x=[X("s", 1), X("s", 1)], a=[M, M])),
+            dict(name="timer-two", N=2, MaxPending=2, setup="s", progs=dict(s=[M, E(3)], r=[D(1, False), D(3), D(1)], x=[X("s", 1)], y=[X("s", 2)], c=[C])),
             dict(name="mixed", N=3, MaxPending=2, setup="s", progs=dict(s=[M], a=[E(1), M], b=[E(4), E(4)], r=[D(1, False), D(4), D(1)], c=[C])),
         ]
     return out
@@ -86,7 +98,7 @@ def tla_value(x):
 
 def prog_value(progs):
     def op(o):
-        d = dict(op=o["op"], id=o.get("id", 0), last=o.get("last", False))
+        d = dict(op=o["op"], id=o.get("id", 0), last=o.get("last", False), owner=o.get("owner", ""))
         return tla_value(d)
     return "[" + ", ".join("%s |-> <<%s>>" % (t, ", ".join(op(o) for o in ops)) for t, ops in progs.items()) + "]"
 
@@ -96,9 +108,9 @@ def explore(scratch, cfg, variant=AS_BUILT, want_graph=True, expect_violation=Fa
     with open(scratch.file(name + ".tla"), "w") as f:
         f.write("---- MODULE %s ----\nEXTENDS InFlightConc\nProgsDef == %s\n====\n" % (name, prog_value(cfg["progs"])))
     with open(scratch.file(name + ".cfg"), "w") as f:
-        f.write("SPECIFICATION Spec\nCONSTANTS\n  N = %d\n  MaxPending = %d\n  Progs <- ProgsDef\n  Setup = \"%s\"\n  CheckUnderLock = %s\n  CloseOnReleaseFail = %s\n"
+        f.write("SPECIFICATION Spec\nCONSTANTS\n  N = %d\n  MaxPending = %d\n  Progs <- ProgsDef\n  Setup = \"%s\"\n  CheckUnderLock = %s\n  CloseOnReleaseFail = %s\n  SendUnderLock = %s\n"
                 "INVARIANTS %s\nCHECK_DEADLOCK FALSE\n" % (cfg["N"], cfg["MaxPending"], cfg["setup"], tla_value(variant["CheckUnderLock"]),
-                                                          tla_value(variant["CloseOnReleaseFail"]), " ".join(INVARIANTS)))
+                                                          tla_value(variant["CloseOnReleaseFail"]), tla_value(variant["SendUnderLock"]), " ".join(INVARIANTS)))
     raw = scratch.file(name + ".raw")
     res = run_tlc(scratch, name, cfg=name + ".cfg", workers=1, marker='", "', outfile=raw, timeout=1800, copy=True)
     if expect_violation:
@@ -193,11 +205,11 @@ def attribute(history):
     """Which property's statement a rejected history contradicts (by the kinds of operation that overlap in it)."""
     ops = {l.get("op") for l in history if l["a"] == "call"}
     props = set()
-    if "C" in ops:
+    if "C" in ops or "X" in ops:
         props.add("C16")
-    if ops & {"D", "R"} and "C" not in ops:
+    if ops & {"D", "R"} and not ops & {"C", "X"}:
         props.add("C10")
-    if ops & {"M", "E"} and "C" not in ops:
+    if ops & {"M", "E"} and not ops & {"C", "X"}:
         props.add("C09")
     return props or {"C09"}
 
@@ -205,9 +217,12 @@ def attribute(history):
 def run_conc(scratch, h, tier, prop):
     out = dict(states=0, transitions=0, walks=0, schedules_in_model=0, edges=0, edges_replayed=0, histories=0, accepted=0, drifted=0,
                violations=[], notes=[], runs=[], samples=[])
+    only = os.environ.get("VERIF_CONC_ONLY")      # (development) a prefix of configuration names
     for cfg in configs(tier):
+        if only and not cfg["name"].startswith(only):
+            continue
         graph, res = explore(scratch, cfg)
-        params = dict(N=cfg["N"], MaxPending=cfg["MaxPending"], progs={t: [dict(op=o["op"], id=o.get("id", 0), last=o.get("last", False)) for o in ops] for t, ops in cfg["progs"].items()})
+        params = dict(N=cfg["N"], MaxPending=cfg["MaxPending"], progs={t: [dict(op=o["op"], id=o.get("id", 0), last=o.get("last", False), owner=o.get("owner", "")) for o in ops] for t, ops in cfg["progs"].items()})
         traces = scratch.file("conc-%s.traces.ndjson" % cfg["name"])
         rep = harness_json(h, ["conc", "-graph", graph, "-params", json.dumps(params), "-traces-out", traces, "-seed", str(seed()),
                                "-max-walks", "20000" if tier == "quick" else "60000"], timeout=3 * 3600)
@@ -259,8 +274,9 @@ def negative_controls(scratch):
     """The invariants are not vacuous: with the check-then-act of the tree as first found TLC must find the violation."""
     found = {}
     byname = {c["name"]: c for c in configs("quick")}
-    for cfg, variant, inv in ((byname["dup-explicit"], dict(CheckUnderLock=False, CloseOnReleaseFail=True), "UniqueAccepted"),
-                              (byname["close-deliver"], dict(CheckUnderLock=True, CloseOnReleaseFail=False), "NoOrphan")):
+    for cfg, variant, inv in ((byname["dup-explicit"], dict(CheckUnderLock=False, CloseOnReleaseFail=True, SendUnderLock=True), "UniqueAccepted"),
+                              (byname["close-deliver"], dict(CheckUnderLock=True, CloseOnReleaseFail=False, SendUnderLock=True), "NoOrphan"),
+                              (byname["timer-deliver"], dict(CheckUnderLock=True, CloseOnReleaseFail=True, SendUnderLock=False), "NoPanic")):
         _, res = explore(scratch, cfg, variant=variant, expect_violation=True)
         found[cfg["name"]] = res.violated
         if res.violated is None:
